@@ -23,8 +23,10 @@ TRUSTED = ['np.broadcast_arrays, ndarray indexing, zip, len', 'SkyCoord.from_pix
 ASSUMPTIONS = ['real arithmetic']
 
 
-def _pc(ctx, name):
-    return Obj('PixCoord', {}, name, ctx.model.cls('PixCoord'))
+def _pc(ctx, name, typed=True):
+    o = Obj('PixCoord', {}, name, ctx.model.cls('PixCoord'))
+    o.typed = typed     # typed=False: the dynamic type is not assumed (isinstance guards stay visible)
+    return o
 
 
 def r1(ctx):
@@ -120,7 +122,7 @@ def r3(ctx):
     m = ctx.model
     ci = m.cls('PixCoord')
     ev = evaluator(ctx)
-    p, q = _pc(ctx, 'p'), _pc(ctx, 'q')
+    p, q = _pc(ctx, 'p'), _pc(ctx, 'q', typed=False)
     res = {}
     for name, op in (('__add__', 1), ('__sub__', -1)):
         f = method_or_fail(ctx, ci, name)
@@ -175,7 +177,7 @@ def r6(ctx):
         ctx.bad('PixCoord.copy', 'deep', 'copy() does not rebuild from deepcopy(self.x), deepcopy(self.y)', f.loc())
     f = method_or_fail(ctx, ci, '__eq__')
     ev = evaluator(ctx)
-    out = ev.run(f, [_pc(ctx, 'p'), _pc(ctx, 'q')], {})
+    out = ev.run(f, [_pc(ctx, 'p'), _pc(ctx, 'q', typed=False)], {})
     vals = [v for _, v in out.returns]
     txt = show(vals, 600)
     want = App('numpy.allclose', (Tup((sym('p.x'), sym('p.y')), 'list'), Tup((sym('q.x'), sym('q.y')), 'list')))
